@@ -1,8 +1,8 @@
 /-
   Trees of components across the deferred pipeline, to any depth and width (model of the code).
 
-  Fragment `T`: templates built from text, `{{ }}`, if, for, with, elements and `{% component name … %}{% endcomponent %}`
-  tags with an empty body, where every registered component's template is again in `T` (so components nest, repeat in
+  Fragment `T`: templates built from text, `{{ }}`, if, for, with, elements, `{% slot %}` tags (not flagged `default`; no fill
+  is ever given, so they render their default content) and `{% component name … %}{% endcomponent %}` tags with an empty body, where every registered component's template is again in `T` (so components nest, repeat in
   loops and may even be recursive) and component data come from the call (keyword arguments, constants, the id).
 
   What is proved, for every fuel, library, page, context without slot references and world — by one mutual induction over
@@ -36,6 +36,7 @@ mutual
     | .withn _ _ b => tnodes b
     | .elem _ b => tnodes b
     | .comp name _ _ _ body => body.isEmpty && !isDynName name
+    | .slot _ isDefault _ _ body => !isDefault && tnodes body
     | _ => false
   def tnodes : List Node → Bool
     | [] => true
@@ -247,13 +248,19 @@ structure GoodR (env : Env) (r : Renderer) (k : Nat) : Prop where
   free : ctxFree r.ctx = true
   reg : ∃ d, findDef env r.name = some d
 
-/-- nothing is registered under ids not generated yet; no provider alive -/
+/-- a `ComponentContext` entry made by a tag of the fragment: no fills, not the dynamic component, and the context at
+the tag (`outer_context`) holds no slot references -/
+def GoodC (cc : CompCtx) : Prop := cc.fills = [] ∧ cc.isDyn = false ∧ ∃ oc, cc.outer = some oc ∧ ctxFree oc = true
+
+/-- nothing is registered under ids not generated yet; no provider alive; every `ComponentContext` entry is one of the
+fragment -/
 structure WInv (w : World) : Prop where
   prov : w.provideCache = []
   rc : ∀ k, w.nextId ≤ k → alGet k w.rendererCache = none
   cc : ∀ k, w.nextId ≤ k → alGet k w.ctxCache = none
   ca : ∀ k, w.nextId ≤ k → alGet k w.childAttrs = none
   refs : ∀ k, w.nextId ≤ k → w.allRefIds.contains k = false
+  good : ∀ k cc, alGet k w.ctxCache = some cc → GoodC cc
 
 def gcdIds : List Ev → List Nat
   | [] => []
@@ -272,6 +279,7 @@ structure Bal (env : Env) (w w' : World) (ids : List Nat) : Prop where
   rcNew : ∀ k ∈ ids, ∃ r, alGet k w'.rendererCache = some r ∧ GoodR env r k
   rc : ∀ k, k ∉ ids → alGet k w'.rendererCache = alGet k w.rendererCache
   ccNew : ∀ k ∈ ids, (alGet k w'.ctxCache).isSome = true
+  ccGood : ∀ k ∈ ids, ∀ cc, alGet k w'.ctxCache = some cc → GoodC cc
   cc : ∀ k, k ∉ ids → alGet k w'.ctxCache = alGet k w.ctxCache
   ca : ∀ k, alGet k w'.childAttrs = alGet k w.childAttrs
   prov : w'.provideCache = w.provideCache ∧ w'.provideRefs = w.provideRefs ∧ w'.allRefIds = w.allRefIds ∧ w'.cap = w.cap
@@ -293,6 +301,7 @@ theorem Bal.refl (env : Env) (w : World) : Bal env w w [] where
   rcNew := by intro k hk; cases hk
   rc := fun _ _ => rfl
   ccNew := by intro k hk; cases hk
+  ccGood := by intro k hk; cases hk
   cc := fun _ _ => rfl
   ca := fun _ => rfl
   prov := ⟨rfl, rfl, rfl, rfl⟩
@@ -307,6 +316,7 @@ theorem Bal.left {env : Env} {a b w' : World} {ids : List Nat} (h : core a = cor
   · exact hb.rcNew
   · rw [← h3]; exact hb.rc
   · exact hb.ccNew
+  · exact hb.ccGood
   · rw [← h2]; exact hb.cc
   · rw [← h4]; exact hb.ca
   · rw [← h5, ← h6, ← h7, ← h8]; exact hb.prov
@@ -321,6 +331,7 @@ theorem Bal.right {env : Env} {w a b : World} {ids : List Nat} (h : core a = cor
   · rw [← h3]; exact hb.rcNew
   · rw [← h3]; exact hb.rc
   · rw [← h2]; exact hb.ccNew
+  · rw [← h2]; exact hb.ccGood
   · rw [← h2]; exact hb.cc
   · rw [← h4]; exact hb.ca
   · rw [← h5, ← h6, ← h7, ← h8]; exact hb.prov
@@ -334,6 +345,7 @@ theorem WInv.of_core {a b : World} (h : core a = core b) (ha : WInv a) : WInv b 
   · rw [← h1, ← h2]; exact ha.cc
   · rw [← h1, ← h4]; exact ha.ca
   · rw [← h1, ← h7]; exact ha.refs
+  · rw [← h2]; exact ha.good
 
 theorem WInv.step {env : Env} {w w' : World} {ids : List Nat} (hw : WInv w) (hb : Bal env w w' ids) : WInv w' := by
   have hn : ∀ k, w'.nextId ≤ k → k ∉ ids := fun k hk hmem => by have := (hb.range k hmem).2; omega
@@ -343,6 +355,10 @@ theorem WInv.step {env : Env} {w w' : World} {ids : List Nat} (hw : WInv w) (hb 
   · intro k hk; rw [hb.cc k (hn k hk)]; exact hw.cc k (Nat.le_trans hb.next hk)
   · intro k hk; rw [hb.ca k]; exact hw.ca k (Nat.le_trans hb.next hk)
   · intro k hk; rw [hb.prov.2.2.1]; exact hw.refs k (Nat.le_trans hb.next hk)
+  · intro k cc hk
+    by_cases hm : k ∈ ids
+    · exact hb.ccGood k hm cc hk
+    · rw [hb.cc k hm] at hk; exact hw.good k cc hk
 
 theorem range'_glue (a b c : Nat) (h1 : a ≤ b) (h2 : b ≤ c) :
     List.range' a (b - a) ++ List.range' b (c - b) = List.range' a (c - a) := by
@@ -374,6 +390,10 @@ theorem Bal.trans {env : Env} {w w1 w2 : World} {i1 i2 : List Nat} (h1 : Bal env
     rcases List.mem_append.mp hk with hk | hk
     · rw [h2.cc k (hdisj k hk)]; exact h1.ccNew k hk
     · exact h2.ccNew k hk
+  · intro k hk cc hcc
+    rcases List.mem_append.mp hk with hk | hk
+    · rw [h2.cc k (hdisj k hk)] at hcc; exact h1.ccGood k hk cc hcc
+    · exact h2.ccGood k hk cc hcc
   · intro k hk
     simp only [List.mem_append, not_or] at hk
     rw [h2.cc k hk.2, h1.cc k hk.1]
@@ -435,6 +455,7 @@ structure LInv (env : Env) (w0 : World) (Q : List QItem) (w : World) : Prop wher
   rcNew : ∀ k ∈ chIds Q, ∃ r, alGet k w.rendererCache = some r ∧ GoodR env r k
   rc : ∀ k, k ∉ chIds Q → alGet k w.rendererCache = alGet k w0.rendererCache
   cc : ∀ k, k ∉ chIds Q ++ opIds Q → alGet k w.ctxCache = alGet k w0.ctxCache
+  ccGood : ∀ k ∈ chIds Q ++ opIds Q, ∀ cc, alGet k w.ctxCache = some cc → GoodC cc
   ca : ∀ k, k ∉ chIds Q → alGet k w.childAttrs = alGet k w0.childAttrs
   prov : w.provideCache = w0.provideCache ∧ w.provideRefs = w0.provideRefs ∧ w.allRefIds = w0.allRefIds ∧ w.cap = w0.cap
   noh : ∀ it ∈ Q, holeIds it.before = []
@@ -448,6 +469,7 @@ theorem LInv.of_bal {env : Env} {w0 w : World} {Q : List QItem} (hb : Bal env w0
   rcNew := hb.rcNew
   rc := hb.rc
   cc := by rw [ho, List.append_nil]; exact hb.cc
+  ccGood := by rw [ho, List.append_nil]; exact hb.ccGood
   ca := fun k _ => hb.ca k
   prov := hb.prov
   noh := hn
@@ -460,6 +482,7 @@ theorem LInv.to_bal {env : Env} {w0 w : World} (hl : LInv env w0 [] w) : Bal env
   rcNew := by intro k hk; cases hk
   rc := fun k _ => hl.rc k (by simp [chIds])
   ccNew := by intro k hk; cases hk
+  ccGood := by intro k hk; cases hk
   cc := fun k _ => hl.cc k (by simp [chIds, opIds])
   ca := fun k => hl.ca k (by simp [chIds])
   prov := hl.prov
@@ -482,6 +505,10 @@ theorem LInv.winv {env : Env} {w0 w : World} {Q : List QItem} (h0 : WInv w0) (hl
   · intro k hk; rw [hl.cc k (hn k hk)]; exact h0.cc k (Nat.le_trans hl.next hk)
   · intro k hk; rw [hl.ca k (hn1 k hk)]; exact h0.ca k (Nat.le_trans hl.next hk)
   · intro k hk; rw [hl.prov.2.2.1]; exact h0.refs k (Nat.le_trans hl.next hk)
+  · intro k cc hk
+    by_cases hm : k ∈ chIds Q ++ opIds Q
+    · exact hl.ccGood k hm cc hk
+    · rw [hl.cc k hm] at hk; exact h0.good k cc hk
 
 /-- finishing an instance (`on_component_rendered`): its `ComponentContext` entry goes -/
 theorem LInv.finish {env : Env} {w0 w w2 : World} {item : QItem} {queue : List QItem} {pid : Nat} {evs : List Ev}
@@ -525,6 +552,15 @@ theorem LInv.finish {env : Env} {w0 w w2 : World} {item : QItem} {queue : List Q
       · rcases List.mem_cons.mp hm with hm | hm
         · exact e hm.symm
         · exact hk (List.mem_append_right _ hm)
+  · intro k hk cc hcc
+    rw [e2] at hcc
+    have hkp : pid ≠ k := fun e => hpid (e ▸ hk)
+    rw [alGet_alDel_ne _ _ _ hkp] at hcc
+    refine hl.ccGood k ?_ cc hcc
+    rw [hch, hop]
+    rcases List.mem_append.mp hk with hm | hm
+    · exact List.mem_append_left _ hm
+    · exact List.mem_append_right _ (List.mem_cons_of_mem _ hm)
   · intro k hk; rw [e4]; exact hl.ca k (by rw [hch]; exact hk)
   · rw [e5, e6, e7, e8]; exact hl.prov
   · intro it hit; exact hl.noh it (List.mem_cons_of_mem _ hit)
@@ -606,6 +642,20 @@ theorem LInv.child {env : Env} {w0 w w1 w2 w3 : World} {item : QItem} {queue : L
     rw [hch, hop]
     simp only [List.cons_append, List.mem_cons, List.mem_append, not_or]
     exact ⟨hk.2.1, hk.1.2, hk.2.2⟩
+  · intro k hk cc hcc
+    rw [b2] at hcc
+    by_cases hm : k ∈ holeIds content
+    · exact hb.ccGood k hm cc hcc
+    · rw [hb.cc k hm, a2] at hcc
+      refine hl.ccGood k ?_ cc hcc
+      rw [hch, hop]
+      rw [hch', hop'] at hk
+      simp only [List.mem_append, List.mem_cons] at hk ⊢
+      rcases hk with (h1 | h1) | (h1 | h1)
+      · exact absurd h1 hm
+      · exact Or.inl (Or.inr h1)
+      · exact Or.inl (Or.inl h1)
+      · exact Or.inr h1
   · intro k hk
     rw [hch'] at hk
     simp only [List.mem_append, not_or] at hk
@@ -658,6 +708,7 @@ theorem Bal.ticked (env : Env) (w : World) (evs : List Ev) (g : Nat) (he : gcdId
   rcNew := by intro k hk; cases hk
   rc := fun _ _ => rfl
   ccNew := by intro k hk; cases hk
+  ccGood := by intro k hk; cases hk
   cc := fun _ _ => rfl
   ca := fun _ => rfl
   prov := ⟨rfl, rfl, rfl, rfl⟩
@@ -665,7 +716,7 @@ theorem Bal.ticked (env : Env) (w : World) (evs : List Ev) (g : Nat) (he : gcdId
 
 /-- `_render_impl` up to the point where the renderer is queued -/
 theorem reg_Bal (env : Env) (w w1 : World) (cc : CompCtx) (r : Renderer) (hw : WInv w)
-    (hg : GoodR env r w.nextId)
+    (hg : GoodR env r w.nextId) (hcc : GoodC cc)
     (e1 : w1.nextId = w.nextId + 1) (e2 : w1.ctxCache = alSet w.nextId cc w.ctxCache)
     (e3 : w1.rendererCache = alSet w.nextId r w.rendererCache) (e4 : w1.childAttrs = w.childAttrs)
     (e5 : w1.provideCache = w.provideCache) (e6 : w1.provideRefs = w.provideRefs) (e7 : w1.allRefIds = w.allRefIds)
@@ -683,6 +734,11 @@ theorem reg_Bal (env : Env) (w w1 : World) (cc : CompCtx) (r : Renderer) (hw : W
   ccNew := by
     intro k hk; simp only [List.mem_singleton] at hk
     rw [hk, e2, alGet_alSet_same]; rfl
+  ccGood := by
+    intro k hk c hc; simp only [List.mem_singleton] at hk
+    rw [hk, e2, alGet_alSet_same] at hc
+    injection hc with hc
+    rw [← hc]; exact hcc
   cc := by
     intro k hk; simp only [List.mem_singleton] at hk
     rw [e2, alGet_alSet_ne _ _ _ _ (fun e => hk e.symm)]
@@ -726,12 +782,14 @@ structure Stmt (env : Env) (n : Nat) : Prop where
     (renderNode env n nd ctx).run.run w = (.ok toks, w') → Bal env w w' (holeIds toks)
   tag : ∀ name kwargs only dyn ctx w toks w', isDynName name = false → ctxFree ctx = true → WInv w →
     (renderCompTag env n name kwargs only dyn [] ctx).run.run w = (.ok toks, w') → Bal env w w' (holeIds toks)
-  impl : ∀ name kw outer ctx w toks w', isDynName name = false → ctxFree ctx = true → slotFreeKvs kw = true → WInv w →
-    (renderImpl env n name kw [] outer ctx).run.run w = (.ok toks, w') →
+  impl : ∀ name kw o ctx w toks w', isDynName name = false → ctxFree ctx = true → ctxFree o = true → slotFreeKvs kw = true → WInv w →
+    (renderImpl env n name kw [] (some o) ctx).run.run w = (.ok toks, w') →
       Bal env w w' (holeIds toks) ∧ (parentOf ctx = none → holeIds toks = [])
   run : ∀ r k attrs w content ga w', GoodR env r k → WInv w →
     (runRenderer env n r attrs).run.run w = (.ok (content, ga), w') →
       Bal env w w' (holeIds content) ∧ ga.map (·.1) = holeIds content
+  slot : ∀ nameE isRequired data body ctx w toks w', tnodes body = true → ctxFree ctx = true → WInv w →
+    (renderSlot env n nameE false isRequired data body ctx).run.run w = (.ok toks, w') → Bal env w w' (holeIds toks)
   loop : ∀ Q parts out w0 w res w', WInv w0 → LInv env w0 Q w → PartsOk parts → holeIds out = [] →
     (postRender env n Q parts out).run.run w = (.ok res, w') → LInv env w0 [] w' ∧ holeIds res = []
 
@@ -741,8 +799,9 @@ theorem stmt_zero (env : Env) : Stmt env 0 := by
   · intro x items i body ctx w toks w' _ _ _ _ h; simp only [renderFor, run_throw] at h; cases h
   · intro nd ctx w toks w' _ _ _ h; simp only [renderNode, run_throw] at h; cases h
   · intro name kwargs only dyn ctx w toks w' _ _ _ h; simp only [renderCompTag, run_throw] at h; cases h
-  · intro name kw outer ctx w toks w' _ _ _ _ h; simp only [renderImpl, run_throw] at h; cases h
+  · intro name kw o ctx w toks w' _ _ _ _ _ h; simp only [renderImpl, run_throw] at h; cases h
   · intro r k attrs w content ga w' _ _ h; simp only [runRenderer, run_throw] at h; cases h
+  · intro nameE isRequired data body ctx w toks w' _ _ _ h; simp only [renderSlot, run_throw] at h; cases h
   · intro Q parts out w0 w res w' _ _ _ _ h; simp only [postRender, run_throw] at h; cases h
 
 theorem ok_inj {α} {a b : α} {w w' : World} (h : ((Except.ok a : Except Err α), w) = (.ok b, w')) : a = b ∧ w = w' := by
@@ -798,6 +857,129 @@ theorem holeIds_noHole : ∀ (toks : List Tok), toks.all noHole = true → holeI
     cases t with
     | hole i a => simp [noHole] at h
     | _ => simp only [holeIds]; exact holeIds_noHole rest h.2
+
+/-- the layer `SlotNode.render` pushes: the component keys of the outer context and the provider keys — no name a template
+can use except `component_vars` -/
+theorem extra_lookup2 (b : Layer) (ctx : Ctx) (k : Str) (hk : internal k = false) (hkv : k ≠ compVarsKey)
+    (hb : ∀ x, lookupL x b ≠ none → x = compKey ∨ x = compVarsKey) : lookupL k (updateL b (injectKeysOf ctx)) = none := by
+  cases hl : lookupL k (updateL b (injectKeysOf ctx)) with
+  | none => rfl
+  | some v0 =>
+    exfalso
+    rcases keys_updateL (injectKeysOf ctx) b k (by rw [hl]; simp) with h1 | ⟨kv, hkv', e⟩
+    · rcases hb k h1 with e1 | e2
+      · rw [e1] at hk; revert hk; decide
+      · exact hkv e2
+    · have := injectKeys_prefixed ctx kv hkv'
+      rw [e, notInject_of_usable k hk] at this; cases this
+
+theorem slotChecks_nofills (d : Bool) (ds : Option Str) (nm : Str) : slotChecks false d ds nm [] = .ok (nm, ds) := by
+  simp [slotChecks, chooseFillName]
+
+/-- `SlotNode.render` on an instance of the fragment (no fills were given): the context the default content is rendered
+in, or the reason it is not rendered -/
+theorem slot_unfolds (env : Env) (n : Nat) (nameE : Expr) (isRequired : Bool) (data : List (Str × Expr)) (body : List Node)
+    (ctx : Ctx) (w : World) (hc : ctxFree ctx = true) (hw : WInv w) :
+    (∃ e, (renderSlot env (n + 1) nameE false isRequired data body ctx).run.run w = (.error e, w)) ∨
+    (renderSlot env (n + 1) nameE false isRequired data body ctx).run.run w = (.ok [], w) ∨
+    (∃ c3, ctxFree c3 = true ∧ (∀ k, internal k = false → k ≠ compVarsKey → ctxGet c3 k = ctxGet ctx k) ∧
+      (renderSlot env (n + 1) nameE false isRequired data body ctx).run.run w = (renderNodes env n body c3).run.run w) := by
+  unfold renderSlot
+  by_cases hdeep : (evalKwargs ctx data).any (fun kv => tooDeep 10 kv.2) = true
+  · left; exact ⟨.budget, by simp only [hdeep, ↓reduceIte, run_bind, run_throw]⟩
+  cases hext : isExtracting ctx with
+  | true => right; left; simp only [hdeep, Bool.false_eq_true, ↓reduceIte, run_bind, run_pure]
+  | false =>
+  have hcid : (∃ cid, ctxGet ctx compKey = some (.compRef cid)) ∨ ¬ (∃ cid, ctxGet ctx compKey = some (.compRef cid)) := Classical.em _
+  rcases hcid with ⟨cid, hcid⟩ | hnc
+  rotate_left
+  · left
+    refine ⟨.tse "slot outside component", ?_⟩
+    cases hg : ctxGet ctx compKey with
+    | none => simp only [hdeep, Bool.false_eq_true, ↓reduceIte, run_bind, run_pure, run_throw]
+    | some v =>
+      cases v <;> first
+        | (exfalso; exact hnc ⟨_, hg⟩)
+        | (simp only [hdeep, Bool.false_eq_true, ↓reduceIte, run_bind, run_pure, run_throw])
+  cases hcc : alGet cid w.ctxCache with
+  | none =>
+    left
+    exact ⟨.keyError "component_context_cache", by simp only [hdeep, Bool.false_eq_true, ↓reduceIte, run_bind, run_pure, hcid, run_get, hcc, run_throw]⟩
+  | some cc =>
+  obtain ⟨hf, hdyn, oc, hoc, hocf⟩ := hw.good cid cc hcc
+  cases hh : hashable (evalExpr ctx nameE) with
+  | false =>
+    left
+    exact ⟨.typeError "unhashable slot name", by simp only [hdeep, Bool.false_eq_true, ↓reduceIte, run_bind, run_pure, hcid, run_get, hcc, hf, hdyn,
+      slotChecks_nofills, ne_eq, not_true_eq_false, hh, Bool.not_false, run_throw]⟩
+  | true =>
+  cases hreq : isRequired with
+  | true =>
+    left
+    exact ⟨.tse "required slot not filled", by simp only [hdeep, Bool.false_eq_true, ↓reduceIte, run_bind, run_pure, hcid, run_get, hcc, hf, hdyn,
+      slotChecks_nofills, ne_eq, not_true_eq_false, hh, Bool.not_true, hoc, Option.isNone_some, Bool.and_false, Bool.false_and,
+      sGet, requiredCheck, Option.isNone_none, Bool.and_self, Bool.true_and, Bool.not_false, run_throw]⟩
+  | false =>
+    right; right
+    simp only [hdeep, Bool.false_eq_true, ↓reduceIte, run_bind, run_pure, hcid, run_get, hcc, hf, hdyn,
+      slotChecks_nofills, ne_eq, not_true_eq_false, hh, Bool.not_true, hoc, Option.isNone_some, Bool.and_false, Bool.false_and,
+      sGet, requiredCheck, Option.isNone_none, Bool.and_self, Bool.true_and, Bool.not_false, Option.getD_none, Option.isSome_none]
+    refine ⟨_, ?_, ?_, rfl⟩
+    rotate_left
+    · -- the variables a template can name resolve as in the context at the slot tag
+      intro k hk hkv
+      have key : ∀ b : Layer, (∀ x, lookupL x b ≠ none → x = compKey ∨ x = compVarsKey) → ∀ (c : Ctx) (j : Nat),
+          c = ctx ++ [updateL b (injectKeysOf ctx)] → ctxGet (insertAt j [] c) k = ctxGet ctx k := by
+        intro b hb c j hcj
+        rw [hcj, ctxGet_insert_empty, ctxGet_append_one, extra_lookup2 b ctx k hk hkv hb]
+      have hbase : ∀ (v? : Option Val) (v2 : Val) (x : Str),
+          lookupL x (match v? with | some v => [(compKey, v), (compVarsKey, v2)] | none => []) ≠ none → x = compKey ∨ x = compVarsKey := by
+        intro v? v2 x h1
+        cases v? with
+        | none => simp [lookupL] at h1
+        | some v =>
+          simp only [lookupL] at h1
+          split at h1
+          · rename_i e1; exact Or.inl e1.symm
+          · split at h1
+            · rename_i e2; exact Or.inr e2.symm
+            · exact absurd rfl h1
+      split
+      · refine key _ ?_ _ _ rfl
+        intro x h1
+        split at h1
+        · cases hg : ctxGet oc compKey with
+          | none => simp [hg, lookupL] at h1
+          | some v => rw [hg] at h1; exact hbase (some v) _ x h1
+        · simp [lookupL] at h1
+      · refine key _ ?_ _ _ rfl
+        intro x h1
+        split at h1
+        · cases hg : ctxGet oc compKey with
+          | none => simp [hg, lookupL] at h1
+          | some v => rw [hg] at h1; exact hbase (some v) _ x h1
+        · simp [lookupL] at h1
+    have hextra : slotFreeKvs (updateL (if (!env.isolated) = true then
+        match ctxGet oc compKey with
+        | some v => [(compKey, v), (compVarsKey, (ctxGet oc compVarsKey).getD Val.none)]
+        | none => []
+        else []) (injectKeysOf ctx)) = true := by
+      refine updateL_free _ _ ?_ (injectKeys_free ctx hc)
+      split
+      · cases hg : ctxGet oc compKey with
+        | none => rfl
+        | some v =>
+          have hv := ctxGet_free oc compKey v hocf hg
+          have hv2 : slotFree ((ctxGet oc compVarsKey).getD Val.none) = true := by
+            cases hg2 : ctxGet oc compVarsKey with
+            | none => rfl
+            | some v2 => exact ctxGet_free oc compVarsKey v2 hocf hg2
+          simp [slotFreeKvs, hv, hv2]
+      · rfl
+    have hc2 := ctxFree_push ctx _ hc hextra
+    split
+    · exact ctxFree_insert_empty _ _ hc2
+    · exact ctxFree_insert_empty _ _ hc2
 
 theorem stmt_node (env : Env) (n : Nat) (ih : Stmt env n) :
     ∀ nd ctx w toks w', tnode nd = true → ctxFree ctx = true → WInv w →
@@ -857,13 +1039,29 @@ theorem stmt_node (env : Env) (n : Nat) (ih : Stmt env n) :
       obtain ⟨hb, hd⟩ := ht
       subst hb
       exact Bal.left hcore (ih.tag name kwargs only dyn ctx _ toks w' hd hc hw1 h)
-    | slot a b c d e => simp [tnode] at ht
+    | slot nameE isDefault isRequired data body =>
+      simp only [tnode, Bool.and_eq_true, Bool.not_eq_true'] at ht
+      obtain ⟨hdf, hb⟩ := ht
+      subst hdf
+      exact Bal.left hcore (ih.slot nameE isRequired data body ctx _ toks w' hb hc hw1 h)
     | fill a b c d => simp [tnode] at ht
     | provide a b c => simp [tnode] at ht
     | block a b => simp [tnode] at ht
     | blockSuper => simp [tnode] at ht
     | «extends» a => simp [tnode] at ht
     | includen a => simp [tnode] at ht
+
+theorem stmt_slot (env : Env) (n : Nat) (ih : Stmt env n) :
+    ∀ nameE isRequired data body ctx w toks w', tnodes body = true → ctxFree ctx = true → WInv w →
+    (renderSlot env (n + 1) nameE false isRequired data body ctx).run.run w = (.ok toks, w') → Bal env w w' (holeIds toks) := by
+  intro nameE isRequired data body ctx w toks w' hb hc hw h
+  rcases slot_unfolds env n nameE isRequired data body ctx w hc hw with ⟨e, he⟩ | he | ⟨c3, hc3, _, he⟩
+  · rw [he] at h; cases h
+  · rw [he] at h
+    obtain ⟨rfl, rfl⟩ := ok_inj h
+    exact Bal.refl env w
+  · rw [he] at h
+    exact ih.nodes body c3 w toks w' hb hc3 hw h
 
 
 theorem stmt_tag (env : Env) (n : Nat) (ih : Stmt env n) :
@@ -887,7 +1085,7 @@ theorem stmt_tag (env : Env) (n : Nat) (ih : Stmt env n) :
       | succ m =>
         unfold resolveFills at h
         simp only [List.isEmpty_nil, ↓reduceIte, run_pure] at h
-        refine (ih.impl name (evalKwargs ctx kwargs) (some ctx) _ w toks w' hd ?_ (evalKwargs_free ctx hc kwargs) hw h).1
+        refine (ih.impl name (evalKwargs ctx kwargs) ctx _ w toks w' hd ?_ hc (evalKwargs_free ctx hc kwargs) hw h).1
         split
         · exact ctxFree_isolatedCopy ctx hc
         · exact hc
@@ -945,6 +1143,11 @@ theorem pure_of_good (d : CompDef) (h : d.data.all (fun kv => pureSrc kv.2 && co
   simp only [Bool.and_eq_true] at this
   exact this.1
 
+theorem good_cc (name : Str) (id : Nat) (path : List Str) (o : Ctx) (h : ctxFree o = true) :
+    GoodC { name := name, id := id, path := path, fills := [], isDyn := false, defaultSlot := none,
+            outer := Option.map snapshot (some o) } :=
+  ⟨rfl, rfl, snapshot o, rfl, ctxFree_snapshot o h⟩
+
 theorem good_renderer (env : Env) (name : Str) (kw : List (Str × Val)) (ctx : Ctx) (id : Nat) (d : CompDef) (o : Option Ctx)
     (hc : ctxFree ctx = true) (hkw : slotFreeKvs kw = true) (hf : findDef env name = some d)
     (hgood : d.data.all (fun kv => pureSrc kv.2 && constFree kv.2) = true) :
@@ -961,13 +1164,13 @@ theorem good_renderer (env : Env) (name : Str) (kw : List (Str × Val)) (ctx : C
 /-- a render that is not inside a component: the deque loop runs to its end -/
 theorem loop_root (env : Env) (n : Nat) (ih : Stmt env n) (w w1 w' : World) (toks : List Tok) (hw : WInv w)
     (h : (postRender env n [{ before := [], child := some w.nextId, parent := none, grand := none }] [] []).run.run w1 = (.ok toks, w'))
-    (cc : CompCtx) (r : Renderer) (hg : GoodR env r w.nextId)
+    (cc : CompCtx) (r : Renderer) (hg : GoodR env r w.nextId) (hcc : GoodC cc)
     (e1 : w1.nextId = w.nextId + 1) (e2 : w1.ctxCache = alSet w.nextId cc w.ctxCache)
     (e3 : w1.rendererCache = alSet w.nextId r w.rendererCache) (e4 : w1.childAttrs = w.childAttrs)
     (e5 : w1.provideCache = w.provideCache) (e6 : w1.provideRefs = w.provideRefs) (e7 : w1.allRefIds = w.allRefIds)
     (e8 : w1.cap = w.cap) (e9 : w1.events = w.events ++ [.gcd w.nextId]) :
     Bal env w w' (holeIds toks) ∧ holeIds toks = [] := by
-  have hb := reg_Bal env w w1 cc r hw hg e1 e2 e3 e4 e5 e6 e7 e8 e9
+  have hb := reg_Bal env w w1 cc r hw hg hcc e1 e2 e3 e4 e5 e6 e7 e8 e9
   have hl : LInv env w [{ before := [], child := some w.nextId, parent := none, grand := none }] w1 :=
     LInv.of_bal (by simpa [chIds] using hb) (by simp [opIds]) (by intro it hit; simp only [List.mem_singleton] at hit; rw [hit]; rfl)
   obtain ⟨hfin, hno⟩ := ih.loop _ [] [] w w1 toks w' hw hl partsOk_nil rfl h
@@ -975,10 +1178,10 @@ theorem loop_root (env : Env) (n : Nat) (ih : Stmt env n) (w w1 w' : World) (tok
   exact ⟨hfin.to_bal, rfl⟩
 
 theorem stmt_impl (env : Env) (n : Nat) (ih : Stmt env n) (hlib : GoodLib env) :
-    ∀ name kw outer ctx w toks w', isDynName name = false → ctxFree ctx = true → slotFreeKvs kw = true → WInv w →
-    (renderImpl env (n + 1) name kw [] outer ctx).run.run w = (.ok toks, w') →
+    ∀ name kw o ctx w toks w', isDynName name = false → ctxFree ctx = true → ctxFree o = true → slotFreeKvs kw = true → WInv w →
+    (renderImpl env (n + 1) name kw [] (some o) ctx).run.run w = (.ok toks, w') →
       Bal env w w' (holeIds toks) ∧ (parentOf ctx = none → holeIds toks = []) := by
-  intro name kw outer ctx w toks w' hd hc hkw hw h
+  intro name kw o ctx w toks w' hd hc ho hkw hw h
   rw [renderImpl_succ] at h
   generalize parentOf ctx = par at h ⊢
   unfold implBody at h
@@ -1018,7 +1221,7 @@ theorem stmt_impl (env : Env) (n : Nat) (ih : Stmt env n) (hlib : GoodLib env) :
           obtain ⟨g, rfl⟩ := tick_ok _ _ _ _ _ ht
           simp only [hgd, run_bind, run_pure, run_modify] at h
           have := loop_root env n ih w _ w' toks hw h _ _ (good_renderer env name kw ctx w.nextId d _ hc hkw hf hgood.2)
-            rfl rfl rfl rfl hw.prov.symm rfl rfl rfl rfl
+            (good_cc name w.nextId _ o ho) rfl rfl rfl rfl hw.prov.symm rfl rfl rfl rfl
           exact ⟨this.1, fun _ => this.2⟩
         · cases h
       | false =>
@@ -1029,7 +1232,7 @@ theorem stmt_impl (env : Env) (n : Nat) (ih : Stmt env n) (hlib : GoodLib env) :
           obtain ⟨g, rfl⟩ := tick_ok _ _ _ _ _ ht
           simp only [hgd, run_bind, run_pure, run_modify] at h
           have := loop_root env n ih w _ w' toks hw h _ _ (good_renderer env name kw ctx w.nextId d _ hc hkw hf hgood.2)
-            rfl rfl rfl rfl hw.prov.symm rfl rfl rfl rfl
+            (good_cc name w.nextId _ o ho) rfl rfl rfl rfl hw.prov.symm rfl rfl rfl rfl
           exact ⟨this.1, fun _ => this.2⟩
         · cases h
     | some p =>
@@ -1045,7 +1248,7 @@ theorem stmt_impl (env : Env) (n : Nat) (ih : Stmt env n) (hlib : GoodLib env) :
           simp only [hgd, run_bind, run_pure, run_modify] at h
           obtain ⟨rfl, rfl⟩ := ok_inj h
           exact ⟨reg_Bal env w _ _ _ hw (good_renderer env name kw ctx w.nextId d _ hc hkw hf hgood.2)
-            rfl rfl rfl rfl hw.prov.symm rfl rfl rfl rfl, fun hh => by cases hh⟩
+            (good_cc name w.nextId _ o ho) rfl rfl rfl rfl hw.prov.symm rfl rfl rfl rfl, fun hh => by cases hh⟩
         · cases h
 
 
@@ -1153,7 +1356,7 @@ theorem stmt_loop (env : Env) (n : Nat) (ih : Stmt env n) :
       obtain ⟨content, ga⟩ := cg
       have hw1 : WInv ({ w with rendererCache := alDel cid w.rendererCache, childAttrs := alDel cid w.childAttrs } : World) := by
         have hwg := hl.winv h0
-        exact ⟨hwg.prov, fun k hk => alGet_alDel_none k cid _ (hwg.rc k hk), hwg.cc, fun k hk => alGet_alDel_none k cid _ (hwg.ca k hk), hwg.refs⟩
+        exact ⟨hwg.prov, fun k hk => alGet_alDel_none k cid _ (hwg.rc k hk), hwg.cc, fun k hk => alGet_alDel_none k cid _ (hwg.ca k hk), hwg.refs, hwg.good⟩
       obtain ⟨hb, hga⟩ := ih.run r cid _ _ content ga w2 hg hw1 hrun
       obtain ⟨u2, w3, hmod, hq⟩ := bind_ok _ _ _ _ _ hq
       simp only [run_modify] at hmod
@@ -1172,6 +1375,7 @@ theorem stmt_all (env : Env) (hlib : GoodLib env) : ∀ n, Stmt env n
       tag := stmt_tag env n ih
       impl := stmt_impl env n ih hlib
       run := stmt_run env n ih hlib
+      slot := stmt_slot env n ih
       loop := stmt_loop env n ih }
 
 
@@ -1212,7 +1416,7 @@ theorem tree_root_tag (env : Env) (hlib : GoodLib env) (n : Nat) (name : Str) (k
           split
           · exact ctxFree_isolatedCopy ctx hc
           · exact hc
-        obtain ⟨hb, hno⟩ := ih.impl name (evalKwargs ctx kwargs) (some ctx) _ w toks w' hd hc' (evalKwargs_free ctx hc kwargs) hw h
+        obtain ⟨hb, hno⟩ := ih.impl name (evalKwargs ctx kwargs) ctx _ w toks w' hd hc' hc (evalKwargs_free ctx hc kwargs) hw h
         have := hno hpar
         rw [this] at hb
         exact ⟨hb, this⟩
@@ -1221,7 +1425,9 @@ theorem tree_root_tag (env : Env) (hlib : GoodLib env) (n : Nat) (name : Str) (k
 /-! ### a concrete library for the instances beside the property theorems: page > list > (loop) leaf, and a leaf next to it -/
 
 def exLeaf : CompDef :=
-  { name := "leaf".toList, template := [.elem "li".toList [.out (.var ["a".toList])]], data := [("a".toList, .kwarg "a".toList)] }
+  { name := "leaf".toList,
+    template := [.elem "li".toList [.out (.var ["a".toList]), .slot (.lit "s1".toList) false false [] [.text "~".toList]]],
+    data := [("a".toList, .kwarg "a".toList)] }
 def exList : CompDef :=
   { name := "list".toList,
     template := [.elem "ul".toList [.forn "x".toList (.var ["items".toList])
@@ -1241,7 +1447,7 @@ theorem exEnv_good (isolated : Bool) : GoodLib (exEnv isolated) := by
   rcases hd with rfl | rfl | rfl <;> exact ⟨by decide, by decide⟩
 
 theorem empty_world_inv : WInv ({} : World) :=
-  ⟨rfl, fun _ _ => rfl, fun _ _ => rfl, fun _ _ => rfl, fun _ _ => rfl⟩
+  ⟨rfl, fun _ _ => rfl, fun _ _ => rfl, fun _ _ => rfl, fun _ _ => rfl, fun _ _ h => by cases h⟩
 
 /-- the run of `{% component "page" %}{% endcomponent %}` on a page, as a checkable summary: five instances, no
 placeholder left, every registry empty again, ids 1‥5 in `get_context_data` order -/
